@@ -411,11 +411,21 @@ XPathEvaluator::createXPath(
 
     theTempString = xpathString;
 
-    theProcessor.initXPath(
-            *theXPath,
-            *m_constructionContext.get(),
-            theTempString,
-            prefixResolver);
+    try
+    {
+        theProcessor.initXPath(
+                *theXPath,
+                *m_constructionContext.get(),
+                theTempString,
+                prefixResolver);
+    }
+    catch(...)
+    {
+        // The caller never sees the instance, so give it back...
+        m_xpathFactory->returnObject(theXPath);
+
+        throw;
+    }
 
     return theXPath;
 }
